@@ -26,14 +26,16 @@ def isDigit (c : UInt8) : Bool := 48 ≤ c.toNat && c.toNat ≤ 57
 /-- value of a digit string, most significant first -/
 def digitsVal (s : List UInt8) : Nat := s.foldl (fun acc c => acc * 10 + (c.toNat - 48)) 0
 
+/-- split an optional sign off: (negative?, rest) -/
+def signBody : List UInt8 → Bool × List UInt8
+  | [] => (false, [])
+  | c :: r => if c = 45 then (true, r) else if c = 43 then (false, r) else (false, c :: r)
+
 /-- `[+-]?[0-9]+` denoting an integer in the Int64 range, else nothing -/
 def parseIntSpec (s : List UInt8) : Option Int :=
-  let (neg, body) : Bool × List UInt8 :=
-    match s with
-    | 45 :: r => (true, r)
-    | 43 :: r => (false, r)
-    | _ => (false, s)
-  if body.isEmpty ∨ !body.all isDigit then none
+  let neg := (signBody s).1
+  let body := (signBody s).2
+  if body.isEmpty ∨ body.all isDigit = false then none
   else
     let v : Int := if neg then -(digitsVal body : Int) else (digitsVal body : Int)
     if minI64 ≤ v ∧ v ≤ maxI64 then some v else none
@@ -80,54 +82,109 @@ def coalesceSpec (target : Ty) : List (Ty × Value) → Value
   | (s, v) :: _ => relayout (Value.size v + 1) target s v
 
 /-! ### the functions -/
-def specFn (name : String) (idx : Nat) (args : List Value) : Expect :=
-  match name, idx, args with
-  | "add", 0, [.int a, .int b] => .exact (.int (wrap64 (a + b)))
-  | "add", 2, [.dur a, .dur b] => .exact (.dur (wrap64 (a + b)))
-  | "add", 3, [.time t l, .dur d] => if InI64 (timeExt (t + d)) then .exact (.time (t + d) l) else .someOf tTime
-  | "add", 4, [.dur d, .time t l] => if InI64 (timeExt (t + d)) then .exact (.time (t + d) l) else .someOf tTime
-  | "add", 5, [.str a, .str b] => .exact (.str (a ++ b))
-  | "sub", 0, [.int a, .int b] => .exact (.int (wrap64 (a - b)))
-  | "sub", 1, [.int a] => .exact (.int (wrap64 (-a)))
-  | "sub", 3, [.float a] => .exact (.float (floatNeg a))
-  | "sub", 4, [.dur a, .dur b] => .exact (.dur (wrap64 (a - b)))
-  | "sub", 5, [.dur a] => .exact (.dur (wrap64 (-a)))
-  | "sub", 6, [.time t l, .dur d] =>
+def repeatSpec (s : List UInt8) (n : Int) : Expect :=
+  if n < 0 ∨ (s.length : Int) * n > maxRepeatedStringLength then .error
+  else if s.isEmpty then .exact (.str [])
+  else .exact (.str (List.replicate n.toNat s).flatten)
+
+def specAdd : Nat → List Value → Expect
+  | 0, [.int a, .int b] => .exact (.int (wrap64 (a + b)))
+  | 2, [.dur a, .dur b] => .exact (.dur (wrap64 (a + b)))
+  | 3, [.time t l, .dur d] => if InI64 (timeExt (t + d)) then .exact (.time (t + d) l) else .someOf tTime
+  | 4, [.dur d, .time t l] => if InI64 (timeExt (t + d)) then .exact (.time (t + d) l) else .someOf tTime
+  | 5, [.str a, .str b] => .exact (.str (a ++ b))
+  | _, _ => .unspecified
+
+def specSub : Nat → List Value → Expect
+  | 0, [.int a, .int b] => .exact (.int (wrap64 (a - b)))
+  | 1, [.int a] => .exact (.int (wrap64 (-a)))
+  | 3, [.float a] => .exact (.float (floatNeg a))
+  | 4, [.dur a, .dur b] => .exact (.dur (wrap64 (a - b)))
+  | 5, [.dur a] => .exact (.dur (wrap64 (-a)))
+  | 6, [.time t l, .dur d] =>
     if d ≠ minI64 ∧ InI64 (timeExt (t - d)) then .exact (.time (t - d) l) else .someOf tTime
-  | "mul", 0, [.int a, .int b] => .exact (.int (wrap64 (a * b)))
-  | "mul", 2, [.dur a, .int b] => .exact (.dur (wrap64 (a * b)))
-  | "mul", 3, [.int a, .dur b] => .exact (.dur (wrap64 (a * b)))
-  | "mul", 4, [.str s, .int n] =>
-    if n < 0 ∨ (s.length : Int) * n > maxRepeatedStringLength then .error
-    else if s.isEmpty then .exact (.str [])
-    else .exact (.str (List.replicate n.toNat s).flatten)
-  | "mul", 5, [.int n, .str s] =>
-    if n < 0 ∨ (s.length : Int) * n > maxRepeatedStringLength then .error
-    else if s.isEmpty then .exact (.str [])
-    else .exact (.str (List.replicate n.toNat s).flatten)
-  | "div", 0, [.int a, .int b] => if b = 0 then .error else .exact (.int (wrap64 (Int.tdiv a b)))
-  | "div", 2, [.dur a, .int b] => if b = 0 then .error else .exact (.dur (wrap64 (Int.tdiv a b)))
-  | "abs", 0, [.int a] => .exact (.int (wrap64 (a.natAbs : Int)))
-  | "abs", 1, [.float a] => .exact (.float (floatAbs a))
-  | "len", 0, [.str s] => .exact (.int s.length)
-  | "len", 1, [.list xs] => .exact (.int xs.length)
-  | "len", 2, [.struct xs] => .exact (.int xs.length)
-  | "len", 3, [.tuple xs] => .exact (.int xs.length)
-  | "tfu", 0, [.int x] => if InI64 (x + unixToInternal) then .exact (.time (x * nsPerSec) 0) else .someOf tTime
-  | "ttu", 0, [.time t _] => .exact (.int (wrap64 (t / nsPerSec)))
-  | "int", 0, [.int a] => .exact (.int a)
-  | "int", 1, [.bool b] => .exact (.int (if b then 1 else 0))
-  | "int", 3, [.str s] => (match parseIntSpec s with | some i => .exact (.int i) | none => .exact .null)
-  | "int", 4, [.dur d] => .exact (.int d)
-  | "float", 0, [.float a] => .exact (.float a)
-  | "string", 0, [v] => (match valueString v with | some s => .exact (.str s) | none => .someOf tStr)
-  | "idx", 0, [.list xs, .int i] =>
+  | _, _ => .unspecified
+
+def specMul : Nat → List Value → Expect
+  | 0, [.int a, .int b] => .exact (.int (wrap64 (a * b)))
+  | 2, [.dur a, .int b] => .exact (.dur (wrap64 (a * b)))
+  | 3, [.int a, .dur b] => .exact (.dur (wrap64 (a * b)))
+  | 4, [.str s, .int n] => repeatSpec s n
+  | 5, [.int n, .str s] => repeatSpec s n
+  | _, _ => .unspecified
+
+/-- `/` truncates toward zero; a zero divisor is an error -/
+def specDiv : Nat → List Value → Expect
+  | 0, [.int a, .int b] => if b = 0 then .error else .exact (.int (wrap64 (Int.tdiv a b)))
+  | 2, [.dur a, .int b] => if b = 0 then .error else .exact (.dur (wrap64 (Int.tdiv a b)))
+  | _, _ => .unspecified
+
+def specAbs : Nat → List Value → Expect
+  | 0, [.int a] => .exact (.int (wrap64 (a.natAbs : Int)))
+  | 1, [.float a] => .exact (.float (floatAbs a))
+  | _, _ => .unspecified
+
+def specLen : Nat → List Value → Expect
+  | 0, [.str s] => .exact (.int s.length)
+  | 1, [.list xs] => .exact (.int xs.length)
+  | 2, [.struct xs] => .exact (.int xs.length)
+  | 3, [.tuple xs] => .exact (.int xs.length)
+  | _, _ => .unspecified
+
+def specTimeFromUnix : Nat → List Value → Expect
+  | 0, [.int x] => if InI64 (x + unixToInternal) then .exact (.time (x * nsPerSec) 0) else .someOf tTime
+  | _, _ => .unspecified
+
+def specTimeToUnix : Nat → List Value → Expect
+  | 0, [.time t _] => .exact (.int (wrap64 (t / nsPerSec)))
+  | _, _ => .unspecified
+
+def specInt : Nat → List Value → Expect
+  | 0, [.int a] => .exact (.int a)
+  | 1, [.bool b] => .exact (.int (if b then 1 else 0))
+  | 3, [.str s] => (match parseIntSpec s with | some i => .exact (.int i) | none => .exact .null)
+  | 4, [.dur d] => .exact (.int d)
+  | _, _ => .unspecified
+
+def specFloat : Nat → List Value → Expect
+  | 0, [.float a] => .exact (.float a)
+  | _, _ => .unspecified
+
+def specString : Nat → List Value → Expect
+  | 0, [v] => (match valueString v with | some s => .exact (.str s) | none => .someOf tStr)
+  | _, _ => .unspecified
+
+def specIndex : Nat → List Value → Expect
+  | 0, [.list xs, .int i] =>
     if 0 ≤ i ∧ i < (xs.length : Int) then .exact (xs[i.toNat]?.getD .null) else .exact .null
-  | "in", 0, [x, .list xs] => .exact (.bool (xs.any fun y => x.equal y))
-  | "in", 1, [x, .tuple xs] => .exact (.bool (xs.any fun y => x.equal y))
-  | "notin", 0, [x, .list xs] => .exact (.bool (xs.all fun y => !x.equal y))
-  | "notin", 1, [x, .tuple xs] => .exact (.bool (xs.all fun y => !x.equal y))
-  | _, _, _ => .unspecified
+  | _, _ => .unspecified
+
+def specIn : Nat → List Value → Expect
+  | 0, [x, .list xs] => .exact (.bool (xs.any fun y => x.equal y))
+  | 1, [x, .tuple xs] => .exact (.bool (xs.any fun y => x.equal y))
+  | _, _ => .unspecified
+
+def specNotIn : Nat → List Value → Expect
+  | 0, [x, .list xs] => .exact (.bool (xs.all fun y => !x.equal y))
+  | 1, [x, .tuple xs] => .exact (.bool (xs.all fun y => !x.equal y))
+  | _, _ => .unspecified
+
+def specFn (name : String) (idx : Nat) (args : List Value) : Expect :=
+  if name = "add" then specAdd idx args
+  else if name = "sub" then specSub idx args
+  else if name = "mul" then specMul idx args
+  else if name = "div" then specDiv idx args
+  else if name = "abs" then specAbs idx args
+  else if name = "len" then specLen idx args
+  else if name = "tfu" then specTimeFromUnix idx args
+  else if name = "ttu" then specTimeToUnix idx args
+  else if name = "int" then specInt idx args
+  else if name = "float" then specFloat idx args
+  else if name = "string" then specString idx args
+  else if name = "idx" then specIndex idx args
+  else if name = "in" then specIn idx args
+  else if name = "notin" then specNotIn idx args
+  else .unspecified
 
 end Octo.Spec13
 
